@@ -177,7 +177,13 @@ pub fn parse_value_path(path: &str) -> Result<OwnedValuePath, PathParseError> {
 /// See `parse_value_path` if the path doesn't contain a prefix.
 pub fn parse_target_path(path: &str) -> Result<OwnedTargetPath, PathParseError> {
     let (prefix, value_path) = get_target_prefix(path);
-    let value_path = parse_value_path(value_path)?;
+    // "%" on its own is the metadata root (what `OwnedTargetPath::metadata_root()` renders as),
+    // just like "." is the event root.
+    let value_path = if prefix == PathPrefix::Metadata && value_path.is_empty() {
+        OwnedValuePath::root()
+    } else {
+        parse_value_path(value_path)?
+    };
 
     Ok(OwnedTargetPath {
         prefix,
